@@ -259,6 +259,10 @@ func scenarios() []scen {
 		add("cmp-sign", 2, 0, 0, "full")
 		add("cmp-sign", 2, 0, 0, "dev1")
 		add("cmp-sign", 3, 0, 0, "dev1")
+		add("cmp-presign", 2, 0, 0, "dev1")
+		add("cmp-keygen", 2, 0, 0, "dev1")
+		add("cmp-refresh", 2, 0, 0, "dev1")
+		add("frost-refresh", 3, 1, 1, "full")
 	}
 	return l
 }
